@@ -201,6 +201,33 @@ template <class R> struct RingH : RingBase {
         if (op == "isZero" && need(1)) { EL(x, 0) return F->isZero(x) ? "1" : "0"; }
         if (op == "isOne" && need(1)) { EL(x, 0) return F->isOne(x) ? "1" : "0"; }
         if (op == "areEqual" && need(2)) { EL(x, 0) EL(y, 1) return F->areEqual(x, y) ? "1" : "0"; }
+        if (op == "hist" && n >= 4) {
+            // a history: registers r0..r3, then one code per API call: op*256 + d*64 + a*16 + b*4 + c
+            E reg[4];
+            for (int i = 0; i < 4; ++i) { F->init(reg[i]); if (!el(reg[i], a[i])) return "NOELT"; }
+            for (size_t i = 4; i < n; ++i) {
+                unsigned long code = a[i].get_ui();
+                unsigned o = (unsigned)(code >> 8), d = (code >> 6) & 3, s1 = (code >> 4) & 3, s2 = (code >> 2) & 3, s3 = code & 3;
+                switch (o) {
+                    case 0: F->add(reg[d], reg[s1], reg[s2]); break;
+                    case 1: F->sub(reg[d], reg[s1], reg[s2]); break;
+                    case 2: F->mul(reg[d], reg[s1], reg[s2]); break;
+                    case 3: F->neg(reg[d], reg[s1]); break;
+                    case 4: F->axpy(reg[d], reg[s1], reg[s2], reg[s3]); break;
+                    case 5: F->axmy(reg[d], reg[s1], reg[s2], reg[s3]); break;
+                    case 6: F->maxpy(reg[d], reg[s1], reg[s2], reg[s3]); break;
+                    case 7: F->addin(reg[d], reg[s1]); break;
+                    case 8: F->subin(reg[d], reg[s1]); break;
+                    case 9: F->mulin(reg[d], reg[s1]); break;
+                    case 10: F->negin(reg[d]); break;
+                    case 11: F->axpyin(reg[d], reg[s1], reg[s2]); break;
+                    case 12: F->axmyin(reg[d], reg[s1], reg[s2]); break;
+                    case 13: F->maxpyin(reg[d], reg[s1], reg[s2]); break;
+                    default: return "BADCODE";
+                }
+            }
+            return out(reg[0]) + " " + out(reg[1]) + " " + out(reg[2]) + " " + out(reg[3]);
+        }
         return run2(op, a);
 #undef EL
     }
@@ -226,6 +253,46 @@ template <class R> struct Extra<R, false> {
     static std::string reduce(RingH<R>&, const std::string&, const std::vector<Z>&) { return "NOOP"; }
 };
 
+// representation-level lines for the log-table ring: operands arrive as residues, the line reports the generator
+// (`_tab_rep2value[1]`, through convert), the raw representations of the operands and of the result
+template <class R> struct RawOps {
+    static std::string run(RingH<R>&, const std::string&, const std::vector<Z>&) { return "NOOP"; }
+};
+template <> struct RawOps<Modular<Log16>> {
+    typedef Modular<Log16> R;
+    static std::string run(RingH<R>& H, const std::string& op, const std::vector<Z>& a) {
+        R& F = *H.F;
+        R::Element x[3], r;
+        F.init(r);
+        for (int i = 0; i < 3; ++i) {
+            F.init(x[i]);
+            if ((size_t)i < a.size()) { if (a[i] < 0 || a[i] >= H.m) return "NOELT"; F.init(x[i], (uint32_t)a[i].get_ui()); }
+        }
+        R::Element rx[3] = {x[0], x[1], x[2]};
+        std::string o = op.substr(4);
+        if (o == "add") F.add(r, x[0], x[1]);
+        else if (o == "sub") F.sub(r, x[0], x[1]);
+        else if (o == "mul") F.mul(r, x[0], x[1]);
+        else if (o == "div") { if (!is_unit(a[1], H.m)) return "NONUNIT"; F.div(r, x[0], x[1]); }
+        else if (o == "inv") { if (!is_unit(a[0], H.m)) return "NONUNIT"; F.inv(r, x[0]); }
+        else if (o == "neg") F.neg(r, x[0]);
+        else if (o == "addin") { r = x[0]; F.addin(r, x[1]); }
+        else if (o == "subin") { r = x[0]; F.subin(r, x[1]); }
+        else if (o == "mulin") { r = x[0]; F.mulin(r, x[1]); }
+        else if (o == "negin") { r = x[0]; F.negin(r); }
+        else if (o == "axpy") F.axpy(r, x[0], x[1], x[2]);
+        else if (o == "axmy") F.axmy(r, x[0], x[1], x[2]);
+        else if (o == "maxpy") F.maxpy(r, x[0], x[1], x[2]);
+        else if (o == "axpyin") { r = x[0]; F.axpyin(r, x[1], x[2]); }
+        else if (o == "axmyin") { r = x[0]; F.axmyin(r, x[1], x[2]); }
+        else if (o == "maxpyin") { r = x[0]; F.maxpyin(r, x[1], x[2]); }
+        else return "NOOP";
+        uint32_t g = 1;
+        if (H.m > 2) F.convert(g, (R::Element)1);
+        return vp::hex_ull(g) + " " + vp::hex_ll(rx[0]) + " " + vp::hex_ll(rx[1]) + " " + vp::hex_ll(rx[2]) + " " + vp::hex_ll(r);
+    }
+};
+
 // which source / target types each ring's init / convert is exercised with
 template <class R, class = void> struct SrcList {
     static std::vector<std::string> src() { return {"s8", "u8", "s16", "u16", "s32", "u32", "s64", "u64", "f32", "f64", "Z"}; }
@@ -240,6 +307,7 @@ template <class R> std::vector<std::string> RingH<R>::convertTargets() const { r
 
 template <class R> std::string RingH<R>::run2(const std::string& op, const std::vector<Z>& a) {
     size_t n = a.size();
+    if (op.compare(0, 4, "raw_") == 0) return RawOps<R>::run(*this, op, a);
     if ((op == "reduce2" || op == "reduce1") && n == 1) return Extra<R>::reduce(*this, op, a);
     if (op == "consts" && n == 0) {
         // zero, one, mOne as element values, and what init() (no source) gives
@@ -432,10 +500,10 @@ static std::vector<Z> moduli_for(RingBase* R, vp::Rng& g, bool thorough) {
     add(hi / 2); add(hi / 2 + 1);
     if (thorough) add(prev_prime(hi / 2 + 1));
     // powers of two and their neighbours up to the maximum
-    for (unsigned k = 2; zpow2(k) <= hi + 1; k += (thorough ? 1 : std::max(3u, hibits / 3))) { add(zpow2(k)); add(zpow2(k) - 1); if (thorough) add(zpow2(k) + 1); }
+    for (unsigned k = 2; zpow2(k) <= hi + 1; k += (thorough ? std::max(1u, hibits / 24) : std::max(3u, hibits / 3))) { add(zpow2(k)); add(zpow2(k) - 1); if (thorough && k <= 16) add(zpow2(k) + 1); }
     // square-root region of the maximum (where products start to need the wide type)
     { Z r; mpz_sqrt(r.get_mpz_t(), hi.get_mpz_t()); add(r); add(r + 1); if (thorough) add(r - 1); }
-    int nr = thorough ? 12 : 2;
+    int nr = thorough ? 6 : 2;
     for (int i = 0; i < nr; ++i) { Z v = lo + zrand_below(g, hi - lo + 1); add(v); if (thorough) add(prev_prime(v < 2 ? Z(2) : v)); }
     std::vector<Z> out;
     for (auto& v : s) {
@@ -444,6 +512,13 @@ static std::vector<Z> moduli_for(RingBase* R, vp::Rng& g, bool thorough) {
         else out.push_back(v);
     }
     if (R->needs_prime || R->needs_odd) { std::set<Z> u(out.begin(), out.end()); out.assign(u.begin(), u.end()); }
+    if (thorough && out.size() > 44) {          // bounded tier: the extremes and an even spread of the rest
+        std::vector<Z> k;
+        size_t n = out.size(), mid = n - 8 - 14;
+        for (size_t i = 0; i < n; ++i)
+            if (i < 8 || i + 14 >= n || ((i - 8) * 22 / mid != (i - 7) * 22 / mid)) k.push_back(out[i]);
+        out = k;
+    }
     return out;
 }
 
@@ -474,10 +549,10 @@ static void gen_c03(RingBase* R, vp::Rng& g, bool thorough) {
     std::vector<Z> ms = moduli_for(R, g, thorough);
     run_line(R->tag + ".limits", 0, {});      // minCardinality() / maxCardinality() as reported by the running code
     for (auto& m : ms) {
-        std::vector<Z> ops = operands_for(R, m, g, thorough ? 4 : 1);
+        std::vector<Z> ops = operands_for(R, m, g, thorough ? 3 : 1);
         // ternary operations on a smaller operand set (the corners first)
         std::vector<Z> ops3;
-        if (thorough) { ops3.assign(ops.begin(), ops.begin() + std::min<size_t>(ops.size(), 10)); if (ops.size() > ops3.size()) ops3.push_back(ops.back()); }
+        if (thorough) { ops3.assign(ops.begin(), ops.begin() + std::min<size_t>(ops.size(), 7)); if (ops.size() > ops3.size()) ops3.push_back(ops.back()); }
         else {   // corners: 0 (implicitly through others), 1, m-1, floor(m/2), floor(m/2)+1, one random
             std::set<Z> seen3;
             for (auto& v : std::vector<Z>{canon(R, m, 1), canon(R, m, m - 1), canon(R, m, m / 2), canon(R, m, m / 2 + 1), canon(R, m, 0), ops.back()})
@@ -502,6 +577,43 @@ static void gen_c03(RingBase* R, vp::Rng& g, bool thorough) {
                 if (v >= lo && v <= hi) vs.insert(v);
             for (int i = 0; i < (thorough ? 8 : 2); ++i) vs.insert(lo + zrand_below(g, hi - lo + 1));
             for (auto& v : vs) { run_line(R->tag + ".reduce2", m, {v}); run_line(R->tag + ".reduce1", m, {v}); }
+        }
+    }
+    // representation-level lines (log-table ring): every operation, all pairs / corner triples; fewer lines for large tables
+    if (R->tag == "log16") {
+        const char* un2[] = {"raw_neg", "raw_negin", "raw_inv"};
+        const char* bin2[] = {"raw_add", "raw_sub", "raw_mul", "raw_div", "raw_addin", "raw_subin", "raw_mulin"};
+        const char* ter2[] = {"raw_axpy", "raw_axmy", "raw_maxpy", "raw_axpyin", "raw_axmyin", "raw_maxpyin"};
+        for (auto& m : ms) {
+            std::vector<Z> ops = operands_for(R, m, g, thorough ? 6 : 2);
+            bool big = m > 2000;
+            size_t k2 = big ? std::min<size_t>(ops.size(), 5) : ops.size(), k3 = std::min<size_t>(ops.size(), big ? 3 : 6);
+            for (auto* o : un2) for (auto& a : ops) run_line(R->tag + "." + o, m, {a});
+            for (auto* o : bin2) for (size_t i = 0; i < k2; ++i) for (size_t j = 0; j < k2; ++j) run_line(R->tag + "." + o, m, {ops[i], ops[j]});
+            for (auto* o : ter2) for (size_t i = 0; i < k3; ++i) for (size_t j = 0; j < k3; ++j) for (size_t l = 0; l < k3; ++l)
+                run_line(R->tag + "." + o, m, {ops[i], ops[j], ops[l]});
+        }
+    }
+    // histories: random programs over a register file (sources may coincide; the destination never aliases a source)
+    {
+        std::vector<Z> hm;
+        for (size_t i = 0; i < ms.size(); ++i)
+            if (thorough || i + 3 >= ms.size() || i == 0 || i == ms.size() / 2) hm.push_back(ms[i]);
+        int nprog = thorough ? 12 : 8, len = thorough ? 48 : 16;
+        for (auto& m : hm) {
+            std::vector<Z> ops = operands_for(R, m, g, 4);
+            for (int t = 0; t < nprog; ++t) {
+                std::vector<Z> args;
+                for (int i = 0; i < 4; ++i) args.push_back(ops[g.below(ops.size())]);
+                int L = 1 + (int)g.below(len);
+                for (int i = 0; i < L; ++i) {
+                    unsigned o = (unsigned)g.below(14), d = (unsigned)g.below(4);
+                    unsigned src[3];
+                    for (int j = 0; j < 3; ++j) { do { src[j] = (unsigned)g.below(4); } while (src[j] == d); }
+                    args.push_back(Z((unsigned long)(o * 256 + d * 64 + src[0] * 16 + src[1] * 4 + src[2])));
+                }
+                run_line(R->tag + ".hist", m, args);
+            }
         }
     }
 }
